@@ -16,6 +16,8 @@ import Driver.Acc
 import Driver.Getters
 import Driver.WF
 import Driver.TGen
+import Driver.Validator
+import Driver.PestOpt
 open PestTyped
 namespace Driver
 
@@ -135,6 +137,15 @@ def toGrammar : Sexp → Option GrammarEntry
     some { gid := gid, ng := { rules := eoiDef :: rs, skipped := toNode sk } }
   | _ => none
 
+/-- `(vgrammar (rule <name> <kind> <raw expr>) ...)`: the rules `harness/gen_runner` hands to pest_meta's
+`validate_ast` (command `validate`, Driver/Validator.lean). -/
+def toRawGrammar : Sexp → Option PGrammar
+  | .list (.atom "vgrammar" :: rules) =>
+    some (rules.filterMap fun
+      | .list [.atom "rule", .atom name, .atom kind, er] => some { name := name, kind := toKind kind, expr := toPExpr er }
+      | _ => none)
+  | _ => none
+
 /-! ### printing -/
 
 def ruleName (g : NodeGrammar) (r : RuleId) : String :=
@@ -191,7 +202,20 @@ def mkInp (form : String) (a b : Nat) (input : List Char) : Inp :=
   | "span" => { start := a, pos := a, rest := sliceBytes input a b, after := sliceBytes input b (blen input) }
   | _ => { start := 0, pos := 0, rest := input, after := [] }
 
-def uniTable : Uni := fun _ _ => false
+/-- The Unicode property tables (`uni name c`).  Default: every property false everywhere.  When a table
+file is given (second CLI argument, else env `VERIF_UNI_TABLE`; written by harness/tools `uni_table` from pest
+2.7.14's own tables: one line `<NAME>\t<hex of the characters having the property>` over a fixed test alphabet,
+`#…` lines ignored), `uni name c` is membership, so `charBy name` answers as pest does on that alphabet. -/
+def uniDefault : Uni := fun _ _ => false
+
+def parseUniTable (text : String) : Uni :=
+  let rows : List (String × List Char) := (text.splitOn "\n").filterMap fun l =>
+    match l.splitOn "\t" with
+    | [name, hx] => if name.startsWith "#" || (unhex hx).isEmpty then none else some (name, unhex hx)
+    | _ => none
+  fun name c => match rows.find? (·.1 = name) with
+    | some (_, cs) => cs.contains c
+    | none => false
 
 def fuelFor (g : NodeGrammar) (input : List Char) : Nat :=
   4 * (input.length + 2) * (g.rules.length + 2) + 40
@@ -203,7 +227,7 @@ def showReport (g : NodeGrammar) (input : List Char) (t : Tracker) : String :=
   | .panic => "\tmsg=panic\tlc=panic"
   | .ok (msg, (l, c)) => "\tmsg=" ++ hex msg ++ "\tlc=" ++ toString l ++ ":" ++ toString c
 
-def runCase (ge : GrammarEntry) (rule entry form : String) (a b : Nat) (input : List Char) : String :=
+def runCase (uniTable : Uni) (ge : GrammarEntry) (rule entry form : String) (a b : Nat) (input : List Char) : String :=
   let g := ge.ng
   match g.rules.findIdx? (·.name = rule) with
   | none => "v=norule"
@@ -246,7 +270,7 @@ def runCase (ge : GrammarEntry) (rule entry form : String) (a b : Nat) (input : 
 /-- `opts <b><o> <gid> boxed` prints the `$boxed` argument of every rule;
 `opts <b><o> <gid> <rule> <entry> <form> <a> <b> <hex>` runs a case on the module generated under
 `box_only_if_needed = b`, `pest_optimizer = o` (`spec=` then refers to the AST that was walked). -/
-def runOpts (gs : List GrammarEntry) (bits : String) (rest : List String) : String :=
+def runOpts (uniTable : Uni) (gs : List GrammarEntry) (bits : String) (rest : List String) : String :=
   match rest with
   | gid :: tail =>
     match gs.find? (·.gid = gid) with
@@ -262,22 +286,26 @@ def runOpts (gs : List GrammarEntry) (bits : String) (rest : List String) : Stri
         | ["boxed"] =>
           "boxed=" ++ ",".intercalate ((ng.rules.drop 1).map fun d => d.name ++ ":" ++ toString d.boxed)
         | [rule, entry, form, a, b, hx] =>
-          runCase { ge with ng := ng, pg := some (pickAst cfg o r) } rule entry form
+          runCase uniTable { ge with ng := ng, pg := some (pickAst cfg o r) } rule entry form
             (a.toNat?.getD 0) (b.toNat?.getD 0) (unhex hx)
         | _ => "v=badline"
       | _, _ => "v=noast"
   | _ => "v=badline"
 
-partial def loop (h : IO.FS.Stream) (gs : List GrammarEntry) : IO Unit := do
+partial def loop (uniTable : Uni) (h : IO.FS.Stream) (gs : List GrammarEntry) : IO Unit := do
   let line ← h.getLine
   if line.isEmpty then return ()
   match line.trimAscii.toString.splitOn " " with
   | "text" :: rest => IO.println (TextCases.run rest)   -- text-layer cases (C12-C14): no grammar involved
   | "getters" :: mode :: gid :: which :: rest =>        -- accessor functions (C16): `getters list|run <gid> <opt|raw> …`
-    IO.println (GetterCases.run mode ((gs.find? (·.gid = gid)).bind fun ge => if which = "raw" then ge.rawpg else ge.pg) rest)
-  | "opts" :: bits :: rest => IO.println (runOpts gs bits rest)   -- option combinations (C20)
+    IO.println (GetterCases.run mode ((gs.find? (·.gid = gid)).bind fun ge => if which = "raw" then ge.rawpg else ge.pg) rest uniTable)
+  | "opts" :: bits :: rest => IO.println (runOpts uniTable gs bits rest)   -- option combinations (C20)
   | ["tgen", o, gid] =>                                   -- T-gen (structure): the generated module as an S-expression, Driver/TGen.lean
     IO.println (match gs.find? (·.gid = gid) with | some ge => TGen.run o gid ge.ng ge.pg ge.rawpg | none => "v=nogrammar")
+  | "validate" :: rest =>                               -- mirror of pest_meta's validate_ast (C11): Driver/Validator.lean
+    IO.println (Validator.run ((Sexp.parse (" ".intercalate rest)).bind toRawGrammar))
+  | "pestopt" :: gid :: rest =>                         -- mirror of pest_meta's optimizer (C20): Driver/PestOpt.lean
+    IO.println (match gs.find? (·.gid = gid) with | some ge => PestOpt.run ge.rawpg rest | none => "v=nogrammar")
   | "wf" :: gid :: rest =>                              -- static well-foundedness / theorem fuel (C11): Driver/WF.lean
     IO.println (match gs.find? (·.gid = gid) with | some ge => WF.command ge.ng rest | none => "v=nogrammar")
   | [gid, rule, entry, form, a, b, hx] =>
@@ -288,23 +316,38 @@ partial def loop (h : IO.FS.Stream) (gs : List GrammarEntry) : IO Unit := do
       if Acc.isEntry entry then   -- accessor / traversal / eq-hash entries (C17, C15, C18): Driver/Acc.lean
         IO.println (Acc.runCase ge.ng ge.pg.isSome uniTable (fun f x y => mkInp f x y inp) (fuelFor ge.ng inp) rule entry form an bn inp)
       else
-      IO.println (runCase ge rule entry form an bn inp)
+      IO.println (runCase uniTable ge rule entry form an bn inp)
   | _ => IO.println "v=badline"
-  loop h gs
+  loop uniTable h gs
 
 def main (args : List String) : IO UInt32 := do
+  -- optional Unicode property table: second CLI argument, else env VERIF_UNI_TABLE, else all-false
+  let (args, uniArg) := match args with
+    | [path, up] => ([path], some up)
+    | _ => (args, none)
+  let uniEnv ← IO.getEnv "VERIF_UNI_TABLE"
+  let uniPath := match uniArg with
+    | some up => some up
+    | none => uniEnv
+  let uniTable ← match uniPath with
+    | some up => if up.isEmpty then pure uniDefault else do
+        if !(← System.FilePath.pathExists up) then
+          IO.eprintln ("model_driver: Unicode table not found: " ++ up)
+          return 2
+        pure (parseUniTable (← IO.FS.readFile up))
+    | none => pure uniDefault
   match args with
   | [path] =>
     let text ← IO.FS.readFile path
     let gs := (text.splitOn "\n").filterMap fun l => (Sexp.parse l).bind toGrammar
-    loop (← IO.getStdin) gs
+    loop uniTable (← IO.getStdin) gs
     return 0
   | [] =>
     -- no grammar file: only `text …` cases can be answered
-    loop (← IO.getStdin) []
+    loop uniTable (← IO.getStdin) []
     return 0
   | _ =>
-    IO.eprintln "usage: model_driver <grammars.sexp>"
+    IO.eprintln "usage: model_driver <grammars.sexp> [<uni_table.tsv>]"
     return 2
 
 end Driver
